@@ -24,6 +24,15 @@ type walker struct {
 	msgs    map[*sse.Message]bool
 	order   []*sse.Message
 	byIdent bool // hash messages by identity rank (first-seen order) in addition to content
+	shape   *Shape
+}
+
+// Shape selects the shape abstraction of the hash: message identity and content are dropped (a message is
+// just "a message"), instants are taken relative to Now and all instants <= Now count as the same ("past"),
+// and unsigned 64-bit counters are ignored. What remains is the shape of the data structure: lengths,
+// capacities, indices, topic lists, which slots are filled, and the time left until each future instant.
+type Shape struct {
+	Now time.Time
 }
 
 func mix(h, v uint64) uint64 {
@@ -64,6 +73,10 @@ func (w *walker) walk(v reflect.Value) {
 				w.msgs[m] = true
 				w.order = append(w.order, m)
 			}
+			if w.shape != nil {
+				w.h = mix(w.h, 0x4d)
+				return
+			}
 			w.h = mix(w.h, hashString(m.String())^0x55)
 			return
 		}
@@ -80,6 +93,12 @@ func (w *walker) walk(v reflect.Value) {
 			t := v.Interface().(time.Time)
 			if t.IsZero() {
 				w.h = mix(w.h, 7)
+			} else if w.shape != nil {
+				if d := t.Sub(w.shape.Now); d <= 0 {
+					w.h = mix(w.h, 8)
+				} else {
+					w.h = mix(w.h, uint64(d))
+				}
 			} else {
 				w.h = mix(w.h, uint64(t.UnixNano()))
 			}
@@ -149,6 +168,10 @@ func (w *walker) walk(v reflect.Value) {
 	case reflect.Int, reflect.Int8, reflect.Int16, reflect.Int32, reflect.Int64:
 		w.h = mix(w.h, uint64(v.Int()))
 	case reflect.Uint, reflect.Uint8, reflect.Uint16, reflect.Uint32, reflect.Uint64, reflect.Uintptr:
+		if w.shape != nil && v.Kind() == reflect.Uint64 {
+			w.h = mix(w.h, 13)
+			return
+		}
 		w.h = mix(w.h, v.Uint())
 	case reflect.Float32, reflect.Float64:
 		w.h = mix(w.h, uint64(v.Float()*1e6))
@@ -160,6 +183,13 @@ func (w *walker) walk(v reflect.Value) {
 // Hash returns the structural hash of the object graph under root (a pointer).
 func Hash(root any) uint64 {
 	w := &walker{seen: map[unsafe.Pointer]int{}, msgs: map[*sse.Message]bool{}}
+	w.walk(reflect.ValueOf(root))
+	return w.h
+}
+
+// ShapeHash returns the hash of the object graph under the shape abstraction.
+func ShapeHash(root any, sh Shape) uint64 {
+	w := &walker{seen: map[unsafe.Pointer]int{}, msgs: map[*sse.Message]bool{}, shape: &sh}
 	w.walk(reflect.ValueOf(root))
 	return w.h
 }
